@@ -60,6 +60,8 @@ def conv_case(draw, with_units=None):
         spec_units=(draw(st.sampled_from(["native", "si", "milli-si"])) if units else None),
         wl_units=(draw(st.sampled_from([None, "nm", "um"])) if units else None),
         direction=draw(st.sampled_from(["irr2flux", "flux2irr"])),
+        # the unit in which plain input numbers are stated (irr_units= / flux_units=); None = the default I / E
+        in_prefix=draw(st.sampled_from([None, None, "", "milli", "micro", "nano"])),
     )
 
 
@@ -102,6 +104,11 @@ def _build_args(case, dreye, spec=None):
     kw = dict(return_units=case["return_units"], prefix=case["prefix"])
     if case["axis"] is not None:
         kw["axis"] = case["axis"]
+    ip = case.get("in_prefix")
+    if ip is not None:
+        kw["irr_units" if direction == "irr2flux" else "flux_units"] = f"{ip}I" if direction == "irr2flux" else f"{ip}E"
+        if su is None:
+            factor = PREFIX[ip]         # plain numbers are stated in that unit; a quantity keeps its own unit
     return spec_arg, wl_arg, kw, factor
 
 
@@ -123,6 +130,8 @@ def _labels(case):
         labs.append("nt:quantity-input")
     if case["prefix"]:
         labs.append("nt:prefix")
+    if case.get("in_prefix"):
+        labs.append("nt:input-unit-option")
     if case["axis"] is not None and (case["spec_units"] or case["wl_units"]):
         labs.append("axis+quantity")
     return labs
@@ -161,8 +170,11 @@ def body_roundtrip(case):
     out, factor = _call(c1, dreye)
     out = np.asarray(out, dtype=float)
     back_dir = "flux2irr" if case["direction"] == "irr2flux" else "irr2flux"
-    # the intermediate is expressed with the prefix; feed it back in native units
-    c2 = dict(case, direction=back_dir, spec=(out * PREFIX[case["prefix"]]).tolist(), spec_units=None, return_units=False, prefix=None)
+    # the intermediate is expressed with the prefix: feed it back in native units, or as it is with the unit option naming the prefix
+    if case.get("in_prefix") is None:
+        c2 = dict(case, direction=back_dir, spec=(out * PREFIX[case["prefix"]]).tolist(), spec_units=None, return_units=False, prefix=None, in_prefix=None)
+    else:
+        c2 = dict(case, direction=back_dir, spec=out.tolist(), spec_units=None, return_units=False, prefix=None, in_prefix=case["prefix"] or "")
     back, _ = _call(c2, dreye, what=f"{back_dir} (inverse)")
     back = np.asarray(back, dtype=float)
     spec = np.asarray(case["spec"], dtype=float) * factor
@@ -222,9 +234,9 @@ def body_units_equal(case):
     """same numbers for plain arrays and for unit-carrying quantities (incl. axis= with quantities)."""
     dreye = _dreye()
     plain = dict(case, spec_units=None, wl_units=None, return_units=False)
-    out_p, _ = _call(plain, dreye, what=f"{case['direction']} (plain)")
+    out_p, factor_p = _call(plain, dreye, what=f"{case['direction']} (plain)")
     out_q, factor = _call(dict(case, return_units=False), dreye, what=f"{case['direction']} (quantity)")
-    out_p = np.asarray(out_p, dtype=float) * factor
+    out_p = np.asarray(out_p, dtype=float) * (factor / factor_p)    # the same numbers, stated in the plain call's unit option
     out_q = np.asarray(out_q, dtype=float)
     check(out_q.shape == out_p.shape, "units-equal:shape", f"{out_q.shape} vs {out_p.shape}")
     check(np.all(np.abs(out_q - out_p) <= REL * np.abs(out_p)), "units-equal:value", f"plain {np.ravel(out_p)[:3].tolist()} vs quantity {np.ravel(out_q)[:3].tolist()}")
